@@ -904,6 +904,10 @@ def model_cases(h: dict, res: dict) -> list[dict]:
                     imps.append(f"({mods(m)}, ({cid}, {cl(mods(d) for d in cm['deps'] + cm['supp'] if d in uset or d in cm['supp'])}))")
                     an.append(f"({mods(m)}, {{| r_iface := {I(('i', cm['ih']))}; r_errors := {cl(I(('e', tuple(e))) for e in errs(cx['errors']))}; "
                               f"r_indirect := {cl(mods(d) for d in cx['deps'] if d in uset)} |}})")
+                usable = {m for m, e in view.items() if "meta" in e and "ex" in e and e.get("data_mtime") is not None}
+                lost = [m for m in user if w["pre"][m].get("meta") and m not in usable]
+                if lost:   # mypy loaded a valid meta that the harness failed to read back after the previous run
+                    raise KeyError(f"cache records of {lost} were not read back (driver read-back incomplete)")
                 for m, e in view.items():
                     if "meta" not in e or "ex" not in e or e.get("data_mtime") is None:
                         continue
